@@ -131,6 +131,15 @@ impl RunReport {
         let root = verif_root();
         let _ = std::fs::create_dir_all(root.join("evidence"));
         let _ = std::fs::create_dir_all(root.join("replays"));
+        // replays of earlier runs of this property are obsolete: a run rewrites what it finds
+        if let Ok(rd) = std::fs::read_dir(root.join("replays")) {
+            let prefix = format!("{}-", self.property);
+            for e in rd.flatten() {
+                if e.file_name().to_string_lossy().starts_with(&prefix) {
+                    let _ = std::fs::remove_file(e.path());
+                }
+            }
+        }
         // group by signature, keep the first (smallest, deterministic order given by the caller) witness
         let mut by_sig: BTreeMap<String, Deviation> = BTreeMap::new();
         let mut counts: BTreeMap<String, u64> = BTreeMap::new();
@@ -143,6 +152,9 @@ impl RunReport {
         for (sig, d) in by_sig.iter() {
             match findings.lookup(&self.property, sig) {
                 Some(f) => {
+                    if std::env::var("VERIF_SHOW_KNOWN").is_ok() {
+                        println!("  known [{}] {}", f.id, sig);
+                    }
                     let e = known_seen.entry(f.id.clone()).or_insert((f.what_fails.clone(), 0));
                     e.1 += counts[sig];
                 }
